@@ -15,8 +15,8 @@ import sys
 
 PID, K = sys.argv[1], sys.argv[2]
 NO_TESTS = "--no-tests" in sys.argv
-ROUND = "2" if "--round2" in sys.argv else "1"
-OUT = ("/tmp/seed2/%s.out" if ROUND == "2" else "/tmp/seed/%s.out") % PID
+ROUND = "3" if "--round3" in sys.argv else ("2" if "--round2" in sys.argv else "1")
+OUT = {"1": "/tmp/seed/%s.out", "2": "/tmp/seed2/%s.out", "3": "/tmp/seed3/%s.out"}[ROUND] % PID
 patch = os.path.join(OUT, "patch_%s.diff" % K)
 demo = os.path.join(OUT, "demo_%s.py" % K)
 wt = "/tmp/confirm/r%s_%s_%s" % (ROUND, PID, K)
